@@ -8,7 +8,7 @@ Failure classes
   C13:<v>:raised:<Exc>@<innermost torrentfile function>      rebuild raised
   C13:<v>:nothing-placed:<single-file|multi-file>            destination holds no file at all afterwards
   C13:<v>:incomplete:<features>                              something was placed but the result does not verify 100%;
-                                                             features = subset of {boundary, twin-names, padded}
+                                                             features = subset of {boundary, multi-per-dir, empty-file, twin-names, padded}
                                                              of the TORRENT (input derived, see _features), or "plain"
   C13:<v>:counted-not-present:<single-file|multi-file>       returned count > number of files present in the destination
   C13:<v>:empty-file-missing                                 only zero-length files are missing (debatable reading)
@@ -21,6 +21,7 @@ Failure classes
   C19:<v>:<name|path-element|name+path-element>:<hostile token kinds>
 <v> is v1 / v2 / hybrid (the kind of METAFILE fed to rebuild).
 """
+import functools
 import hashlib
 import itertools
 import json
@@ -30,6 +31,7 @@ import traceback
 from native.harness import Acc, harness, replayer, tempdir, quiet, content, small_trees, make_metafile  # noqa: F401
 from native import ref
 
+content = functools.lru_cache(maxsize=4096)(content)      # same deterministic bytes, computed once per (seed, tag, n)
 B = 16384
 VLABEL = {1: "v1", 2: "v2", 3: "hybrid"}
 SEARCH_DIRS = ["A_before", "S1", "S2", "Z_after"]       # the order in which they are handed to rebuild
@@ -228,13 +230,13 @@ def _materialise(d, case):
 
 
 def _features(spec, version, pl, creator="real"):
-    """input-derived description of the TORRENT used in the class of an 'incomplete' failure:
-    boundary   -- a file ends exactly on a piece boundary and more data follows (v1: boundary of the piece stream;
-                  v2 / hybrid: length is a multiple of the piece length)
-    twin-names -- two files of the torrent have the same name and size (each is a same-sized decoy for the other)
-    padded     -- v1 metafile with BEP 47 padding files (reference creator with align)
-    (several files per directory and zero-length files were tried as features and never separated outcomes; zero-length
-    files have their own symptom classes)"""
+    """input-derived description of the TORRENT used in the class of an 'incomplete' failure (the quantifier's dimensions):
+    boundary      -- a file ends exactly on a piece boundary and more data follows (v1: boundary of the piece stream;
+                     v2 / hybrid: length is a multiple of the piece length)
+    multi-per-dir -- some directory of the torrent holds more than one file
+    empty-file    -- the torrent has a zero-length file
+    twin-names    -- two files of the torrent have the same name and size (each is a same-sized decoy for the other)
+    padded        -- v1 metafile with BEP 47 padding files (reference creator with align)"""
     feats = []
     if "single" in spec:
         return "plain"
@@ -251,6 +253,13 @@ def _features(spec, version, pl, creator="real"):
         bnd = any(n and n % pl == 0 for n in lens) and sum(1 for n in lens if n) > 1
     if bnd:
         feats.append("boundary")
+    dirs = {}
+    for comps, _ in files:
+        dirs[tuple(comps[:-1])] = dirs.get(tuple(comps[:-1]), 0) + 1
+    if any(n > 1 for n in dirs.values()):
+        feats.append("multi-per-dir")
+    if any(n == 0 for n in lens):
+        feats.append("empty-file")
     seen = set()
     for comps, data in files:
         if (comps[-1], len(data)) in seen and data:
